@@ -639,6 +639,40 @@ func (e *Engine) invoke(st *State, fr *Frame, res ssa.Value, c *ssa.CallCommon, 
 			return nil, true
 		}
 	}
+	// `dispatch M` in a closed world where the methods are not summaries: one successor per
+	// implementer, each called statically (by its contract, or inlined) under its tag
+	if recv.K == KIface && closed && len(impls) > 0 && len(impls) <= 24 && e.wantsDispatch(mname) {
+		all := true
+		for _, t := range impls {
+			if m := e.P.prog.LookupMethod(t, c.Method.Pkg(), c.Method.Name()); m == nil || m.Blocks == nil {
+				all = false
+			}
+		}
+		if all {
+			var out []*State
+			for _, t := range impls {
+				cond := eq(recv.X[0], e.P.reg.tagOf(t))
+				if v, ok := st.known(cond); ok && !v {
+					continue
+				}
+				s2 := st.clone()
+				s2.assume(cond)
+				if !e.feasible(s2) {
+					continue
+				}
+				e.paths++
+				m := e.P.prog.LookupMethod(t, c.Method.Pkg(), c.Method.Name())
+				rv := e.unboxIface(s2, recv, t)
+				succ, cont := e.callStatic(s2, s2.top(), res, m, nil, append([]Val{rv}, args...), c, pos)
+				if cont {
+					out = append(out, s2)
+				} else {
+					out = append(out, succ...)
+				}
+			}
+			return out, false
+		}
+	}
 	full := true
 	if e.P.methodAssumedPure(c.Value.Type(), mname) {
 		full = false
